@@ -10,8 +10,8 @@ if [ -n "$(git -C /repo status --porcelain)" ]; then echo "/repo not clean"; exi
 git -C /repo apply $S/patch.diff || { echo "$id: patch does not apply"; exit 3; }
 out=$S/check_output.txt; touch $out
 for c in $checks; do
-  echo "### ./check $c --tier ${TIER:-quick} (with $id applied)" >> $out
-  ./check $c --tier ${TIER:-quick} --no-evidence >> $out 2>&1
+  echo "### ./check $c --tier ${TIER:-quick}${ONLY:+ --only $ONLY} (with $id applied)" >> $out
+  ./check $c --tier ${TIER:-quick} --no-evidence ${ONLY:+--only "$ONLY"} >> $out 2>&1
   echo "### exit=$?" >> $out
 done
 git -C /repo checkout -- .
